@@ -554,7 +554,9 @@ class EventsProcessor:
 
         def release_stream(*, _streams: _Streams = self.streams) -> None:
             assert stream.id is not None
-            _stream = _streams.pop(stream.id)
+            _stream = _streams.pop(stream.id, None)
+            if _stream is None:
+                return  # already released
             self.connection.stream_close_waiter.set()
             if not self.connection.is_closing():
                 self.connection.ack(stream.id, _stream.buffer.unacked_size())
